@@ -48,12 +48,12 @@ pub fn install_panic_hook() {
     }));
 }
 
-fn take_panic() -> Option<(String, String)> {
+pub(crate) fn take_panic() -> Option<(String, String)> {
     LAST_PANIC.with(|p| p.borrow_mut().take())
 }
 
 /// the table of PROTOCOL.md
-fn classify_panic(msg: &str, _loc: &str) -> String {
+pub(crate) fn classify_panic(msg: &str, _loc: &str) -> String {
     let table: [(&str, &str); 10] = [
         ("The global mutex protecting the LockableCache is poisoned", "poisoned"),
         ("This entry must exist", "panic:s551"),
@@ -82,6 +82,54 @@ fn classify_panic(msg: &str, _loc: &str) -> String {
 
 // ---------------------------------------------------------------------------------------------
 
+/// perform a guard method, reply as in PROTOCOL.md
+pub(crate) fn op_reply(g: &mut dyn GuardObj, op: GOp) -> String {
+    fn opt(v: Option<u32>) -> String {
+        match v {
+            Some(v) => format!("some {v}"),
+            None => "nil".to_string(),
+        }
+    }
+    match op {
+        GOp::Value => opt(g.value()),
+        GOp::Vmut(v) => g.value_mut_set(v).to_string(),
+        GOp::Insert(v) => opt(g.insert(v)),
+        GOp::Tinsert(v) => g.try_insert(v).to_string(),
+        GOp::Voi(v) => g.value_or_insert(v).to_string(),
+        GOp::Voiw(v) => g.value_or_insert_with(&mut || v).to_string(),
+        GOp::Voiwp => g
+            .value_or_insert_with(&mut || std::panic::panic_any(SCRIPT_PANIC))
+            .to_string(),
+        GOp::Remove => opt(g.remove()),
+        GOp::Key => g.key().to_string(),
+    }
+}
+
+/// `[<entry> ...] now=<t>`
+fn format_snapshot(entries: Option<Vec<SnapEntry>>, lru: bool, case_start: u64) -> String {
+    let Some(mut entries) = entries else {
+        return "[poisoned]".to_string();
+    };
+    if !lru {
+        entries.sort_by_key(|e| e.key);
+    }
+    let strs: Vec<String> = entries
+        .iter()
+        .map(|e| {
+            let (val, l) = match e.unlocked {
+                None => ("?".to_string(), "L"),
+                Some(None) => ("-".to_string(), "U"),
+                Some(Some((v, stamp))) => {
+                    let stamp = if lru { stamp.saturating_sub(case_start) } else { 0 };
+                    (format!("{v}@{stamp}"), "U")
+                }
+            };
+            format!("{}:{}:{}:{}", e.key, val, l, e.replicas)
+        })
+        .collect();
+    format!("[{}] now={}", strs.join(" "), clock_ms() - case_start)
+}
+
 struct PendingSt {
     fut: LockFut,
     key: u32,
@@ -101,6 +149,8 @@ pub struct ExecInfo {
     pub callback_invocations: usize,
     /// guards created by an `expire`
     pub guards_returned: usize,
+    /// scheduled mode: what the last `step` did
+    pub step: crate::sched::StepInfo,
 }
 
 pub struct Harness {
@@ -113,6 +163,8 @@ pub struct Harness {
     case_start: u64,
     /// the snapshot before a successful `into`, while no container exists
     frozen_snapshot: Option<String>,
+    /// the running scheduled case (then there is no sequential one)
+    sched: Option<crate::sched::SchedCase>,
     pub info: ExecInfo,
 }
 
@@ -128,6 +180,7 @@ impl Harness {
             kind: Kind::HashMap,
             case_start: 0,
             frozen_snapshot: None,
+            sched: None,
             info: ExecInfo::default(),
         }
     }
@@ -149,7 +202,24 @@ impl Harness {
     pub fn stream_ids(&self) -> Vec<u64> {
         self.streams.keys().copied().collect()
     }
+    /// scheduled mode: status of every thread (`S G K B W D`); empty if no scheduled case is running
+    pub fn sched_statuses(&self) -> Vec<char> {
+        match &self.sched {
+            Some(sc) if !sc.hung => sc.statuses(),
+            _ => Vec::new(),
+        }
+    }
+    /// raw iteration order of the running case's container
     pub fn real_keys(&self) -> Vec<u32> {
+        if let Some(sc) = &self.sched {
+            if sc.hung {
+                return Vec::new();
+            }
+            return catch_unwind(AssertUnwindSafe(|| sc.cont.keys())).unwrap_or_else(|_| {
+                take_panic();
+                Vec::new()
+            });
+        }
         match &self.cont {
             Some(c) => catch_unwind(AssertUnwindSafe(|| c.keys())).unwrap_or_else(|_| {
                 take_panic();
@@ -160,9 +230,6 @@ impl Harness {
     }
     pub fn real_snapshot(&self) -> Option<Vec<SnapEntry>> {
         self.cont.as_ref().and_then(|c| c.snapshot())
-    }
-    pub fn now(&self) -> u64 {
-        clock_ms() - self.case_start
     }
 
     // ---- teardown -----------------------------------------------------------------------------
@@ -204,34 +271,16 @@ impl Harness {
     // ---- snapshot -----------------------------------------------------------------------------
 
     fn snapshot_str(&self) -> String {
+        if let Some(sc) = &self.sched {
+            return format_snapshot(sc.snapshot(), sc.kind == Kind::Lru, sc.case_start);
+        }
         let Some(c) = &self.cont else {
             return match &self.frozen_snapshot {
                 Some(s) => s.clone(),
                 None => "[] now=0".to_string(),
             };
         };
-        let Some(mut entries) = c.snapshot() else {
-            return "[poisoned]".to_string();
-        };
-        let lru = self.kind == Kind::Lru;
-        if !lru {
-            entries.sort_by_key(|e| e.key);
-        }
-        let strs: Vec<String> = entries
-            .iter()
-            .map(|e| {
-                let (val, l) = match e.unlocked {
-                    None => ("?".to_string(), "L"),
-                    Some(None) => ("-".to_string(), "U"),
-                    Some(Some((v, stamp))) => {
-                        let stamp = if lru { stamp.saturating_sub(self.case_start) } else { 0 };
-                        (format!("{v}@{stamp}"), "U")
-                    }
-                };
-                format!("{}:{}:{}:{}", e.key, val, l, e.replicas)
-            })
-            .collect();
-        format!("[{}] now={}", strs.join(" "), self.now())
+        format_snapshot(c.snapshot(), self.kind == Kind::Lru, self.case_start)
     }
 
     fn key_is_locked(&self, k: u32) -> bool {
@@ -285,7 +334,66 @@ impl Harness {
         o
     }
 
+    fn exec_sched(&mut self, req: &Req) -> String {
+        let sc = self.sched.as_mut().unwrap();
+        match req {
+            Req::Prog(t, prog) => {
+                if sc.set_prog(*t, prog) {
+                    self.set("ok")
+                } else {
+                    self.set("bad")
+                }
+            }
+            Req::Step(t) => {
+                let mut info = crate::sched::StepInfo::default();
+                let r = sc.step(*t, &mut info);
+                self.info.step = info;
+                match r {
+                    Some(r) => {
+                        let outcome = r.split(" ; ").next().unwrap_or("").to_string();
+                        self.info.outcome = outcome;
+                        r
+                    }
+                    None => self.set("bad"),
+                }
+            }
+            Req::Adv(d) => {
+                clock_advance(*d);
+                self.set("ok")
+            }
+            Req::Reorder(ks) => {
+                if sc.kind == Kind::Lru || sc.hung {
+                    return self.set("bad");
+                }
+                let c = &sc.cont;
+                let r = catch_unwind(AssertUnwindSafe(|| {
+                    let mut real = c.keys();
+                    let mut given = ks.clone();
+                    real.sort_unstable();
+                    given.sort_unstable();
+                    if real == given { "ok".to_string() } else { "bad".to_string() }
+                }));
+                self.finish(r)
+            }
+            _ => self.set("bad"),
+        }
+    }
+
     fn exec(&mut self, req: &Req) -> String {
+        if matches!(req, Req::Init(_) | Req::SInit(..)) {
+            if let Some(sc) = self.sched.take() {
+                sc.finish();
+            }
+        }
+        if let Req::SInit(kind, n) = req {
+            self.reset();
+            self.frozen_snapshot = None;
+            self.sched = Some(crate::sched::SchedCase::new(*kind, *n));
+            return self.set("ok");
+        }
+        if self.sched.is_some() {
+            return self.exec_sched(req);
+        }
         if let Req::Init(kind) = req {
             self.reset();
             self.kind = *kind;
@@ -349,6 +457,8 @@ impl Harness {
                 None => self.set("bad"),
             },
             Req::Into => self.do_into(),
+            Req::SInit(..) => unreachable!(),
+            Req::Prog(..) | Req::Step(_) => self.set("bad"),
             Req::Reorder(ks) => {
                 if self.kind == Kind::Lru {
                     return self.set("bad");
@@ -484,25 +594,7 @@ impl Harness {
         let Some(g) = self.guards.get_mut(&h) else {
             return self.set("bad");
         };
-        fn opt(v: Option<u32>) -> String {
-            match v {
-                Some(v) => format!("some {v}"),
-                None => "nil".to_string(),
-            }
-        }
-        let r = catch_unwind(AssertUnwindSafe(|| match op {
-            GOp::Value => opt(g.value()),
-            GOp::Vmut(v) => g.value_mut_set(v).to_string(),
-            GOp::Insert(v) => opt(g.insert(v)),
-            GOp::Tinsert(v) => g.try_insert(v).to_string(),
-            GOp::Voi(v) => g.value_or_insert(v).to_string(),
-            GOp::Voiw(v) => g.value_or_insert_with(&mut || v).to_string(),
-            GOp::Voiwp => g
-                .value_or_insert_with(&mut || std::panic::panic_any(SCRIPT_PANIC))
-                .to_string(),
-            GOp::Remove => opt(g.remove()),
-            GOp::Key => g.key().to_string(),
-        }));
+        let r = catch_unwind(AssertUnwindSafe(|| op_reply(g.as_mut(), op)));
         self.finish(r)
     }
 
@@ -632,6 +724,9 @@ impl Harness {
 
 impl Drop for Harness {
     fn drop(&mut self) {
+        if let Some(sc) = self.sched.take() {
+            sc.finish();
+        }
         self.reset();
     }
 }
